@@ -2,7 +2,7 @@
 
 ENGINES = [
     {'name': 'crawler', 'path': 'mc/crawl.py',
-     'serves_properties': ['C01', 'C02', 'C03', 'C05', 'C06', 'C08', 'C10', 'C13'],
+     'serves_properties': ['C01', 'C02', 'C03', 'C05', 'C06', 'C07', 'C08', 'C10', 'C13'],
      'kind_free_text': 'in-process world (mc/world.py: real Flask app, virtual clock, snapshots) + independent MPD '
                        'reader (mc/mpd.py) + independent ISO-BMFF reader (mc/bmff.py) + synthetic media writer '
                        '(mc/synth.py); clock transition system over critical instants'},
@@ -133,5 +133,19 @@ CHECKS['C08'] = dict(
          'are evaluated in exact timedelta arithmetic; a pass through HTTP checks the rendered MPD attributes '
          'against the pure values.',
     note='Option values the endpoint refuses are dropped (listed in evidence); explicit starts are <= now.')
+
+CHECKS['C07'] = dict(
+    engine='crawler',
+    technique='exhaustive per-option value alphabets (unit round trip) + option-subset enumeration through HTTP re-parsed with the server option parser',
+    design_ref='DESIGN.md §7 C07',
+    text='Unit: every DashOption found in the registry at run time x every candidate of its type alphabet (all '
+         'cgi_choices; boundary integers; ISO instants with UTC offsets and microseconds; URLs over reserved '
+         'characters and format fields; lists; every DRM selection x location subset): from_string(text of '
+         'to_string(v)) == v. Integration: every 1-subset (thorough: 2-subsets inside four groups) of options at '
+         'non-default legal values x templates/modes; the init and media URLs of every media type in the served MPD '
+         'are parsed with the server option parser and compared with what the manifest request resolved '
+         '(three black-box forwarding rules), and fetched.',
+    note='"Accepted" = after the template restrictions/features are applied exactly as calculate_options() does; '
+         'time-of-day error positions are translated by design and are not compared.')
 
 NOT_BUILT = {}
